@@ -128,6 +128,38 @@ func errClass(err error) string {
 	return "other0"
 }
 
+// injected is the error a faulting source or sink returns for a tag. Tags from 100 on are not
+// the token error but values a real sink or source can return and that this repository's own
+// handlers also use as their "closed" marker: a dsnet Closed-coded error (what a closed dsnet
+// Reader or Writer placed underneath returns), and io.ErrClosedPipe (a closed io.Pipe end).
+func injected(tag int) error {
+	switch tag {
+	case 100:
+		return cerrors.Error{Code: cerrors.Closed, Pkg: "xflate"}
+	case 101:
+		return cerrors.Error{Code: cerrors.Closed, Pkg: "bzip2"}
+	case 102:
+		return cerrors.Error{Code: cerrors.Closed, Pkg: "meta"}
+	case 103:
+		return cerrors.Error{Code: cerrors.Closed, Pkg: "flate"}
+	case 104:
+		return io.ErrClosedPipe
+	}
+	return &injErr{tag}
+}
+
+func isInjected(err error, tag int) bool {
+	if ie, ok := err.(*injErr); ok {
+		return ie.tag == tag
+	}
+	return tag >= 100 && err == injected(tag)
+}
+
+// closedTag is the tag whose injected error equals the closed marker of the package.
+func closedTag(typ string) int {
+	return map[string]int{"xflate": 100, "bzip2": 101, "meta": 102, "flate": 103, "brotli": 104}[typ]
+}
+
 // injErr is the token error injected by faulting sources and sinks.
 type injErr struct{ tag int }
 
